@@ -7,10 +7,12 @@ from . import common, progs
 ID = 'C15'
 LEVEL = 'exploration'
 TIERS = {
-    'quick': {'cases': 2400, 'wall': 100, 'chunk': 12},
-    'thorough': {'cases': 80000, 'wall': 1500, 'chunk': 24},
+    'quick': {'cases': 144 + 2400, 'wall': 100, 'chunk': 12},
+    'thorough': {'cases': 144 + 80000, 'wall': 1500, 'chunk': 24},
 }
-RULE = ('case i: one seeded program from the union of all generators (time travel 40%, sequential 35%, '
+RULE = ('cases 0..143: the PREEMPT MATRIX (seed independent) - a defeat function with a preempt block in each of 12 '
+        'placements x {defeats itself, defeats conditionally, returns} x caller try/undo | try/stop x {followed by '
+        'defeat, not}. Further cases: one seeded program from the union of all generators (time travel 40%, sequential 35%, '
         'sequential with a planted fault or its harmless twin 25%), compiled checked and --unchecked with '
         'the same word size, stack, argv and poison seed, both stepped on the SVM. When the checked run '
         'raises no error flag the unchecked run must commit the identical history (and must not halt or '
@@ -43,9 +45,35 @@ def judge(p, argv, W, stack, poison):
     return out, info, cfg
 
 
+# ---- preempt matrix (seed independent): a defeat function with a preempt block in each of twelve placements, that
+# then defeats itself / defeats conditionally / returns, called from try/undo and try/stop, followed by defeat or not.
+# Whether the preempt runs depends on the (virtual) defeat probe, which the two builds must lower alike.
+def preempt_matrix():
+    from .c05 import NLP_JOBS
+    shapes = sorted({j[0] for j in NLP_JOBS})
+    return [(sh, tail, kind, follow) for sh in shapes for tail in ('self_defeat', 'cond_defeat', 'return')
+            for kind in ('undo', 'stop') for follow in ('defeat', 'nodefeat')]
+
+
+PMATRIX = preempt_matrix()
+
+
+def preempt_prog(job):
+    from .c05 import nlp_prog
+    from ..build import ex, call, bin_, V, I
+    sh, tail, kind, follow = job
+    t = {'self_defeat': (ex(call('!is_defeat')),), 'cond_defeat': (ex(call('!truth_is_defeat', bin_('>', V('a'), I(0)))),),
+         'return': ()}[tail]
+    return nlp_prog(sh, follow, kind, tail=t)
+
+
 def case(seed, idx, tier):
     rnd = case_rng(seed, ID, idx)
-    p, argv, W, kind = progs.draw(rnd)
+    if idx < len(PMATRIX):
+        p, argv = preempt_prog(PMATRIX[idx])
+        W, kind = (2, 3, 4, 8)[idx % 4], 'preempt_matrix'
+    else:
+        p, argv, W, kind = progs.draw(rnd)
     poison = rnd.randrange(1 << 30) if idx % 3 == 0 else None
     stack = rnd.choice((common.GENEROUS, 1500, 800))
     res = common.new_result()
